@@ -46,6 +46,11 @@ def run(ctx):
                 rc, _, err = sh([exe, "--n", nlist, "--kmax", "2" if (thorough or not small) else "1", "--fill", str(fill), "--seed", str(ctx.seed), "--threads", "8" if thorough else "4"], stdout=f, timeout=7200)
                 if rc != 0:
                     ctx.violation("h_mem died on %s/%s rc=%s %s" % (be, kind, rc, err[-300:]), key="h_mem crash %s %s" % (be, kind))
+            if not small or thorough or (be, kind) == cfgs[-1]:
+                # the same lifecycles once more with every 1..64 KiB block ending on an inaccessible page (reads past the end of a coefficient array fault too)
+                rc, _, err = sh([exe, "--n", "1,8,9" if not thorough else "1,3,7,8,9", "--kmax", "2", "--fill", str(0xA5), "--guard", "1", "--seed", str(ctx.seed), "--threads", "2"], stdout=f, timeout=7200)
+                if rc != 0:
+                    ctx.violation("h_mem (guard pages) died on %s/%s rc=%s %s" % (be, kind, rc, err[-300:]), key="h_mem guard crash %s %s" % (be, kind))
         n = sum(1 for _ in open(tf))
         r = tlc.run_tlc("Trace_Mem", env={"TRACE": tf}, workers=1, workdir=ctx.dir, timeout=1800)
         if r.ok and r.depth == n + 1:
